@@ -341,19 +341,30 @@ theorem Decodes.run_append {p : Par α} {e : Bytes} {x : α} (h : Decodes p e x)
 
 /-! ### the length-prefixed string reader -/
 
-/-- one length byte, then that many bytes of valid UTF-8 without NUL -/
-theorem decodes_readLenStr (s : Bytes) (hl : s.length < 256) (h0 : (0 : UInt8) ∉ s) (hv : validUtf8 s = true) :
-    Decodes readLenStr (UInt8.ofNat s.length :: s) s := by
+/-- one length byte, then that many bytes: the text is what precedes the first NUL among them (all of them when
+there is none), and exactly the length byte and the declared bytes are consumed -/
+theorem decodes_readLenStr_cut (s : Bytes) (hl : s.length < 256)
+    (hv : validUtf8 (s.take (findByte 0 s)) = true) :
+    Decodes readLenStr (UInt8.ofNat s.length :: s) (s.take (findByte 0 s)) := by
   intro b post hr
   have hr' : b.rest = UInt8.ofNat s.length :: (s ++ post) := by simpa using hr
   have hlen : (UInt8.ofNat s.length).toNat = s.length := by
     simp [UInt8.toNat_ofNat', Nat.mod_eq_of_lt hl]
-  refine ⟨b.advance (s.length + 1), ?_, ?_, by simp⟩
+  have hpos : findByte 0 s ≤ s.length := findByte_le 0 s
+  have htake : (s ++ post).take (findByte 0 s) = s.take (findByte 0 s) := List.take_append_of_le_length hpos
+  refine ⟨b.advance (1 + s.length), ?_, ?_, by simp⟩
   · unfold readLenStr readStringWith utf8LenDec
-    simp only [hr', hlen, List.take_left', findByte_none 0 s h0, hv]
+    simp only [hr', hlen, List.take_left', htake, hv]
     simp
   · have := Buf.advance_append b (UInt8.ofNat s.length :: s) post hr
-    simpa using this
+    simpa [Nat.add_comm] using this
+
+/-- one length byte, then that many bytes of valid UTF-8 without NUL -/
+theorem decodes_readLenStr (s : Bytes) (hl : s.length < 256) (h0 : (0 : UInt8) ∉ s) (hv : validUtf8 s = true) :
+    Decodes readLenStr (UInt8.ofNat s.length :: s) s := by
+  have hf : findByte 0 s = s.length := findByte_none 0 s h0
+  have := decodes_readLenStr_cut s hl (by rw [hf, List.take_length]; exact hv)
+  rwa [hf, List.take_length] at this
 
 theorem readLenStr_at_end (b : Buf) (h : b.rest = []) : ∃ k, readLenStr b = .err k :=
   ⟨.packetBad, by simp [readLenStr, readStringWith, utf8LenDec, h]⟩
